@@ -48,7 +48,8 @@ def make_ops(rng, cfg, profile, tier):
             r = rng.random()
             if r < 0.55:
                 ops.append({'op': 'ESTIMATE', 'a': [rng.choice(ALGOS), rng.choice([0, 0, 2, 3]) if cfg['K'] >= 2 else 0,
-                                                    rng.random() < 0.4, rng.random() < 0.5, rng.choice(tchoices)]})
+                                                    rng.random() < 0.4, rng.random() < 0.5, rng.choice(tchoices),
+                                                    rng.choice([None, None, None, 1e-7, 1e-6, 1e-2, 10.0])]})
             elif r < 0.65:
                 ops.append({'op': 'ESTIMATE_ALL', 'a': [rng.randrange(1 << 16)]})
             elif r < 0.72:
@@ -630,7 +631,7 @@ class Session:
             g[nm] = (self.ref_ll(xp, table)[0] - self.ref_ll(xm, table)[0]) / (2 * h)
         return g
 
-    def estimate(self, algo, boot, save, reuse, T):
+    def estimate(self, algo, boot, save, reuse, T, tol=None):
         ctx = self.ctx
         np = self.np
         if reuse and self.objects:
@@ -640,6 +641,14 @@ class Session:
             rec = self.make_object(T, None, save=save)
         b = rec['b']
         b.biogeme_parameters.set_value('optimization_algorithm', algo)
+        # the tolerance is a setting of the object that may change between two estimations (buggify knob): what
+        # "convergence reported" promises is measured against the value in force for THIS estimation
+        default_tol = 1.220703125e-4
+        if algo == 'scipy':
+            tol = None
+        b.biogeme_parameters.set_value('tolerance', tol if tol is not None else default_tol)
+        if tol is not None:
+            ctx.probe('estimation with a non-default tolerance')
         if boot:
             b.biogeme_parameters.set_value('bootstrap_samples', boot)
         fixed_before = {nm: rec['betas'][nm].initValue for nm, _ in self.cfg['fixed']}
@@ -696,16 +705,22 @@ class Session:
         # (5) stationarity when convergence is reported (gradient from finite differences of the reference)
         if r.algorithm_has_converged():
             msgs = getattr(r.data, 'optimizationMessages', None) or {}
-            self._stationary(algo, x, table, want, f0=r.data.initLogLike, said={k_: str(msgs[k_]) for k_ in ('Cause of termination', 'Relative gradient',
+            self._stationary(algo, x, table, want, f0=r.data.initLogLike, eps=tol if tol is not None else default_tol, said={k_: str(msgs[k_]) for k_ in ('Cause of termination', 'Relative gradient',
                                                                                'Number of iterations') if k_ in msgs})
         ctx.log('ESTIMATE', algo, boot, fhex(r.data.logLike), bool(r.algorithm_has_converged()))
         rec['estimated'] = True
         return r
 
-    def _stationary(self, algo, x, table, f, f0=None, said=None):
+    def _stationary(self, algo, x, table, f, f0=None, said=None, eps=1.220703125e-4):
         ctx = self.ctx
         g = self._fd_grad(x, table)
-        tol = 10 * 1.2207e-4
+        # the tolerance in force bounds the gradient when the gradient criterion stopped the algorithm; the package also
+        # reports convergence when the relative change of the iterates falls below "steptol", which bounds the step,
+        # not the gradient: then only the default bound is demanded
+        cause = str((said or {}).get('Cause of termination', ''))
+        tol = 10 * (eps if cause.startswith('Relative gradient') else max(eps, 1.220703125e-4))
+        if cause.startswith('Relative change'):
+            ctx.probe('convergence reported through the step tolerance')
         for i, nm in enumerate(self.cfg['names']):
             bd = self.cfg['bounds'][i] if (self.cfg.get('bounds') and algo in BOUNDED) else None
             v = x[nm]
